@@ -13,7 +13,11 @@ use jammdb::verif::{Hooks, LockId, Mode};
 
 use crate::iosim::{IoSched, Kind};
 
+/// errno a lock request answered from the interruption budget fails with
+static INTERRUPT_ERRNO: std::sync::atomic::AtomicI32 = std::sync::atomic::AtomicI32::new(libc::EINTR);
+
 #[derive(Clone, Copy, PartialEq, Eq, Debug)]
+
 pub enum RwPolicy {
     /// a read is enabled iff no writer holds the lock
     PolicyFree,
@@ -142,7 +146,7 @@ impl IoSched for SchedHooks {
             loop {
                 sched().point(t, op.clone());
                 if sched().take_interrupt(t) {
-                    return Some(libc::EINTR);
+                    return Some(INTERRUPT_ERRNO.load(std::sync::atomic::Ordering::Relaxed));
                 }
                 if !model_lock {
                     break;
@@ -402,6 +406,13 @@ impl Sched {
 
     pub fn set_eintr_budget(&self, n: usize) {
         self.state.lock().unwrap().eintr_budget = n;
+        INTERRUPT_ERRNO.store(libc::EINTR, std::sync::atomic::Ordering::Relaxed);
+    }
+
+    /// like `set_eintr_budget`, with another errno (the lock request is refused, e.g. ENOLCK)
+    pub fn set_lock_failure_budget(&self, n: usize, errno: i32) {
+        self.state.lock().unwrap().eintr_budget = n;
+        INTERRUPT_ERRNO.store(errno, std::sync::atomic::Ordering::Relaxed);
     }
 
     /// the kernel refused a lock the model had granted: undo the grant, park the request behind a
